@@ -225,9 +225,23 @@ pub fn stress(dir: &str, output: &str, seed: u64, thorough: bool) -> Value {
 						if i % 40 == 7 {
 							let max = ((1u64 << c.z) - 1) as u32;
 							let bbox = TileBBox::new(c.z, c.x.saturating_sub(8), c.y.saturating_sub(8), c.x.saturating_add(8).min(max), c.y.saturating_add(8).min(max)).unwrap();
-							let items: Vec<(TileCoord3, Blob)> = reader.get_bbox_tile_stream(bbox).await.collect().await;
+							let bb = bbox.clone();
+							let items: Vec<(TileCoord3, Blob)> = match tokio::time::timeout(std::time::Duration::from_secs(120), async { reader.get_bbox_tile_stream(bb).await.collect().await }).await {
+								Ok(v) => v,
+								Err(_) => {
+									evs.push(json!({"ev":"Conc","src":src,"t":t,"z":c.z,"x":c.x,"y":c.y,"h":-1,"via":"stream_hang"}));
+									vec![]
+								}
+							};
+							let mut seen: std::collections::HashSet<TileCoord3> = Default::default();
 							for (cc, b) in items {
-								evs.push(json!({"ev":"Conc","src":src,"t":t,"z":cc.z,"x":cc.x,"y":cc.y,"h":h31(b.as_slice()) as i64,"via":"stream"}));
+								// (a coordinate delivered twice: the second delivery is reported as a result of its own that no lookup gives)
+								let h = if seen.insert(cc) { h31(b.as_slice()) as i64 } else { -2 };
+								evs.push(json!({"ev":"Conc","src":src,"t":t,"z":cc.z,"x":cc.x,"y":cc.y,"h":h,"via":"stream"}));
+							}
+							// a stored tile inside the box that the stream did NOT deliver is a result too: "nothing"
+							for cc in coords.iter().filter(|cc| bbox.contains3(cc) && !seen.contains(cc)) {
+								evs.push(json!({"ev":"Conc","src":src,"t":t,"z":cc.z,"x":cc.x,"y":cc.y,"h":0,"via":"stream_missing"}));
 							}
 						}
 					}
@@ -246,6 +260,31 @@ pub fn stress(dir: &str, output: &str, seed: u64, thorough: bool) -> Value {
 		}
 		// the same from plain OS threads, each driving its lookups with its own minimal executor (no runtime of its own)
 		if !src.ends_with("_http") {
+			// (their own sequential reference, obtained the same way -- a plain thread and a minimal executor, on a fresh reader --
+			// so that "what the call returns when it runs alone" is measured under the same conditions)
+			{
+				let seq = rt.block_on(get_reader(&location)).unwrap();
+				let coords2 = coords.clone();
+				let src2 = format!("{src}@os");
+				let evs = std::thread::spawn(move || {
+					coords2
+						.iter()
+						.map(|c| {
+							let h = match catch(|| futures::executor::block_on(seq.get_tile_data(c))) {
+								Ok(Ok(Some(b))) => h31(b.as_slice()) as i64,
+								Ok(Ok(None)) => 0,
+								_ => -1,
+							};
+							json!({"ev":"Seq","src":src2,"z":c.z,"x":c.x,"y":c.y,"h":h})
+						})
+						.collect::<Vec<_>>()
+				})
+				.join()
+				.unwrap();
+				for e in evs {
+					out.emit(&e);
+				}
+			}
 			let mut handles = vec![];
 			for t in 0..4usize {
 				let reader = reader.clone();
@@ -261,7 +300,7 @@ pub fn stress(dir: &str, output: &str, seed: u64, thorough: bool) -> Value {
 							Ok(Ok(None)) => 0,
 							_ => -1,
 						};
-						evs.push(json!({"ev":"Conc","src":src,"t":100 + t,"z":c.z,"x":c.x,"y":c.y,"h":h,"via":"os_thread"}));
+						evs.push(json!({"ev":"Conc","src":format!("{src}@os"),"t":100 + t,"z":c.z,"x":c.x,"y":c.y,"h":h,"via":"os_thread"}));
 					}
 					evs
 				}));
